@@ -5,7 +5,8 @@ buffering), initial destination / part file, the with-block (a script of write /
 on the file object, ending normally or by raising one of several exception kinds) and a *plan*
 (which instrumented call fails with which errno or with which non-OSError exception class, or
 before which call the destination appears), followed by an immediate fault-free retry (on a fresh
-saver, or on the SAME AtomicSaver instance).
+saver, or on the SAME AtomicSaver instance) - or by a HISTORY (round 3b): further saves through the same long-lived
+AtomicSaver object (or a second one, or fresh ones) while the world changes between the uses (`hist`).
 
 Tie = ACCEPTANCE (round 3): the calls the real code makes are recorded and classified by their EFFECT
 (create-part-exclusive, chmod of the part file by path or descriptor, write/flush/fsync/close,
@@ -252,6 +253,35 @@ class Spy5(Spy):
         return out
 
 
+    def raw_records(self):
+        """the recorded FACTS about every counted call, without any judgement: name, which of the two names the path
+        arguments / descriptor / file object refer to, success, injected, and the arguments that matter - the Lean driver
+        classifies them itself (C05.classify, lean/BoltonsVerif/C05/Classify.lean) and must arrive at `observations()`"""
+        out = []
+        for rec in self.log:
+            if rec['i'] is None:
+                continue
+            call = rec['call']
+            paths = rec.get('paths') or []
+            roles = ''.join({'dest': 'd', 'part': 'p'}.get(self.role(p), 'o') for p in paths)
+            creat = excl = trunc = False
+            mode = rec.get('mode')
+            if call == 'os.open' and 'flags' in rec:
+                fl = rec['flags']
+                creat, excl, trunc = bool(fl & os.O_CREAT), bool(fl & os.O_EXCL), bool(fl & os.O_TRUNC)
+            elif call == 'open' and 'pymode' in rec:
+                m = rec['pymode']
+                creat, excl, trunc = ('w' in m or 'a' in m or 'x' in m), 'x' in m, 'w' in m
+                mode = 0o666
+            same = bool(paths) and os.path.dirname(paths[0]) == os.path.dirname(self.dest)
+            bits = [rec['ok'], rec.get('injected'), rec.get('wr'), creat, excl, trunc, rec.get('created'), same,
+                    rec.get('on_fd'), rec.get('was_closed'), rec.get('performed'), rec.get('appeared')]
+            out.append(';'.join([call, roles, ''.join('1' if b else '0' for b in bits),
+                                 str(mode if isinstance(mode, int) and mode >= 0 else 0),
+                                 (rec.get('data') or '-') if call in ('file.write', 'file.writelines') else '-']))
+        return out
+
+
 class FcntlProxy:
     """stands in for the module attribute `boltons.fileutils.fcntl`: fcntl.fcntl(fd, ...) becomes a counted call"""
 
@@ -285,6 +315,29 @@ def _hexdata(x):
         return ''
 
 
+def look(p):
+    """[mode, hex content] of the regular file at p, None when there is nothing"""
+    try:
+        st = os.lstat(p)
+    except OSError:
+        return None
+    if not stat.S_ISREG(st.st_mode):
+        return [stat.S_IMODE(st.st_mode), '?notreg']
+    with open(p, 'rb') as fh:
+        return [stat.S_IMODE(st.st_mode), hx(fh.read())]
+
+
+CFG_KEYS = ('ow', 'owp', 'rm', 'txt', 'perms')
+
+
+def saver_cfg(case, who):
+    """configuration of the saver object `who` of a history case (0 / 'n': the case's own; 1: with the overrides `alt`)"""
+    cfg = {k: case[k] for k in CFG_KEYS}
+    if who == 1:
+        cfg.update(case.get('alt') or {})
+    return cfg
+
+
 def ops_of(case):
     """the with-block's script: 'w<hex>' = f.write(bytes), 'f' = f.flush(), 'c' = f.close()"""
     if case.get('ops') is not None:
@@ -314,6 +367,11 @@ class C05(Property):
             'call, fault pairs, buffering, instance reuse, special permission bits, the fcntl calls of set_cloexec as fault sites), '
             'then the full enumeration. Fault positions are the calls the CURRENT code makes, under whatever name (os.rename / os.replace, '
             'os.chmod / os.fchmod, os.unlink / os.remove, os.open+fdopen / open). '
+            'HISTORIES (round 3b): one long-lived AtomicSaver object (or two with different file_perms taking turns, or fresh ones in between) '
+            'used for 2-5 saves while the world changes between the uses - the destination chmod-ed / deleted / replaced by another '
+            "writer's file with another mode, the process umask changed, a foreign part file appearing / removed - x file_perms explicit / None x text / binary x "
+            'overwrite x first use completing / block raising / a call failing x every single fault position of a LATER save; each save is judged '
+            'with the state IT starts from (measured just before it). '
             'Non-trivial = the save did not complete (some call failed, the body raised, or it was refused); '
             'distinct = distinct (configuration, initial state, body, plan).')
     ASSUMPTIONS = ['faults are injected by replacing boltons.fileutils.os and wrapping the part file object: an injected '
@@ -322,14 +380,20 @@ class C05(Property):
                    '(ValueError, MemoryError, RuntimeError, an OSError without errno, ...); a BaseException that is not an '
                    'Exception is only used as the way the with-block ends',
                    'single process, no other writer in the scratch directory except the scripted "destination appears" action',
-                   'the recorded calls are classified by their effect on the destination / part file names by fsspy.Spy._event and '
-                   'c05.Spy5 (trusted Python); that no file-system call of the saver escapes the recorder is a proof obligation '
-                   'regenerated from the source (C05.source_calls_are_recorded)',
+                   'the recorder notes FACTS about every counted call (name, which of the two names its path arguments / descriptor / '
+                   'file object refer to, success, open flags, mode argument, bytes written: fsspy.Spy + c05.Spy5.raw_records, trusted Python); '
+                   'their CLASSIFICATION into observations is the Lean definition C05.classify - the Python classifier (fsspy.Spy._event, '
+                   'Spy5.observations) is checked against it on every call of every case (cls=ok); that no file-system call of the saver '
+                   'escapes the recorder is a proof obligation regenerated from the source (C05.source_calls_are_recorded)',
+                   'between two saves of a history the world moves only by the scripted steps (chmod / unlink / replacement of the destination, '
+                   'umask, a part file appearing / removed); WHILE a save of a history runs nothing else acts',
                    'the scratch directory is made on a memory-backed file system (/dev/shm) when one passes a probe '
                    '(hard links, rename, permission bits), else in the default temporary directory',
                    'POSIX branch of atomic_rename/replace (os.name != "nt")']
     CORRESPONDENCE_NAME = ('C05.Driver: C05.Accept (acceptance automaton + end conditions) on the trace observed on boltons.fileutils.atomic_save '
-                           'in a real scratch directory, and C05.replay of that trace on the abstract FS vs the real destination / part file')
+                           'in a real scratch directory (= C05.classify of the recorded raw facts), and C05.replay of that trace on the abstract FS '
+                           'vs the real destination / part file; for histories every save is judged from the state it starts in, the moves of the '
+                           'world between the saves are C05.EnvStep.apply')
 
     # ------------------------------------------------------------------ translator hook
     # mutating / process-state calls of the os module that the recorder (fsspy) does NOT interpose, and modules through
@@ -447,6 +511,9 @@ class C05(Property):
         for ow, dm, um in itertools.product((1, 0), (None, 0o644, 0o600), (0o022, 0)):
             for c in self.with_plans(mk(ow=ow, perms=0, umask=um, dm=dm), appear=False):
                 yield c
+        # 10. HISTORIES: one long-lived AtomicSaver object, several saves, the world changes in between
+        for c in self.history_family(full):
+            yield c
         # 2. what the with-block does besides writing (closes the file itself, writes after closing, flushes)
         #    x how it ends, with every single fault; then the ways a block can raise
         for (ow, dm), (ops, raises) in itertools.product(((1, 0o644), (0, None)), self.SCRIPTS):
@@ -503,6 +570,94 @@ class C05(Property):
         big = (bytes(range(48, 112)) * 400).hex()
         for c in self.with_plans(mk(dm=0o644, writes=('4e45', big)), appear=False):
             yield c
+
+    ENV_MOVES = [['c', 0o600], ['c', 0o664], ['d'], ['p', 0o640, b'OTHER-WRITER'.hex()], ['u', 0o027], ['c', 0o755],
+                 ['p', 0o444, '-'], ['u', 0]]
+
+    @staticmethod
+    def sv(k, who=0, raises=0, plan=(), ops=None):
+        """save number k of a history: writes b'V<k>' (so the content says which save it came from)"""
+        return ['s', {'who': who, 'ops': list(ops) if ops is not None else ['w' + ('V%d' % k).encode().hex()], 'raises': raises,
+                      'plan': [list(x) for x in plan]}]
+
+    def history_family(self, full):
+        """one saver object used for several saves while the world changes between the uses: the destination is chmod-ed,
+        deleted, replaced by another writer's file with another mode, the process umask changes; file_perms explicit or
+        None; text / binary; the first use completes, or its block raises, or a call of it fails; then every single fault
+        position of a LATER save; two long-lived saver objects with different file_perms taking turns; a fresh saver in between"""
+        mk, sv, moves = self.mk, self.sv, self.ENV_MOVES
+        bases = [mk(ow=ow, perms=perms, txt=txt, dm=dm, plan=[]) for perms, txt, dm, ow in
+                 itertools.product((None, 0o640), (0, 1), (None, 0o644, 0o600), (1, 0))]
+        for bi, base in enumerate(bases):
+            for mi, mv in enumerate(moves):
+                # a. save, the world moves, save again through the same object
+                yield dict(base, hist=[mv, sv(2)])
+                if base['ow']:
+                    # b. the first use fails (the block raises / fdopen fails), then the world moves, then the same object retries
+                    yield dict(base, raises=1, hist=[mv, sv(2)])
+                    if full or (bi + mi) % 2 == 0:
+                        yield dict(base, plan=[[2 if base['perms'] is None else 1, errno.ENOMEM]], hist=[mv, sv(2)])
+                # c. three uses, two moves
+                mv2 = moves[(mi + 3 + bi) % len(moves)]
+                if full or (bi + mi) % 3 == 0:
+                    yield dict(base, hist=[mv, sv(2), mv2, sv(3)])
+                    yield dict(base, hist=[mv, sv(2, raises=1), mv2, sv(3)])
+                    yield dict(base, hist=[mv, mv2, sv(2), sv(3, who='n'), moves[(mi + 5) % len(moves)], sv(4)])
+        # d. two long-lived objects with different explicit / implicit permissions taking turns
+        for perms, alt in ((None, 0o600), (0o640, None), (None, None), (0o604, 0o640)):
+            for dm in (None, 0o644):
+                for mv in moves[:5]:
+                    yield dict(mk(perms=perms, dm=dm, plan=[]), alt={'perms': alt},
+                               hist=[sv(2, who=1), mv, sv(3, who=0), moves[1], sv(4, who=1)])
+                    yield dict(mk(perms=perms, dm=dm, plan=[], txt=1), alt={'perms': alt, 'ow': 0},
+                               hist=[mv, sv(2, who=1), ['d'], sv(3, who=1), sv(4, who=0)])
+        # f. the part file name changes hands between the uses: a part file left behind by another (crashed) saver appears,
+        #    is removed again - "never reused or overwritten unless overwrite_part" holds at the time of EACH save
+        stale = ['P', 0o600, b'foreign-part'.hex()]
+        for owp, rm, ow, dm in itertools.product((0, 1), (1, 0), (1, 0), (None, 0o644)):
+            base = mk(ow=ow, owp=owp, rm=rm, dm=dm, plan=[])
+            yield dict(base, hist=[stale, sv(2), ['Q'], sv(3)])
+            yield dict(base, hist=[stale, sv(2, who='n'), sv(3), moves[0], ['Q'], sv(4)])
+            if ow:
+                yield dict(base, raises=1, hist=[stale, sv(2), sv(3, raises=1), ['Q'], sv(4)])
+                yield dict(base, hist=[stale, sv(2, plan=[[0, errno.EIO]]), ['Q'], stale, sv(3), ['Q'], sv(4)])
+        # e. every single fault position of the SECOND save of a history (and of the third)
+        sel = [(mk(dm=0o644, plan=[]), moves[0]), (mk(dm=None, plan=[]), moves[4]), (mk(dm=0o600, perms=0o640, plan=[]), moves[2]),
+               (mk(ow=0, dm=None, plan=[]), moves[2]), (mk(dm=0o644, txt=1, plan=[]), moves[3])]
+        for base, mv in (sel if full else sel[:4]):
+            c0 = dict(base, hist=[mv, sv(2), moves[5], sv(3)])
+            obs = self.run_case(c0)
+            for idx in (1, 3):
+                calls = obs['steps'][idx].get('log', []) if len(obs.get('steps', [])) > idx else []
+                for kk, name in enumerate(calls):
+                    h = [mv, sv(2), moves[5], sv(3)]
+                    h[idx] = sv(idx // 2 + 2, plan=[[kk, SITE_ERRNO.get(name, errno.EIO)]])
+                    yield dict(base, hist=h)
+                    if idx == 1 and kk % 3 == 0:
+                        h2 = list(h)
+                        h2[idx] = sv(2, plan=[[kk, 1001]])
+                        yield dict(base, hist=h2)
+
+    def random_history(self):
+        rng = self.rng
+        h = []
+        k = 1
+        for _ in range(rng.choice([1, 2, 2, 3, 4, 6])):
+            r = rng.random()
+            if r < 0.5:
+                mv = rng.choice(self.ENV_MOVES + [['c', rng.choice([0o400, 0o640, 0o666, 0o1644, 0o777, 0])],
+                                                  ['u', rng.choice([0o022, 0o077, 0o002])],
+                                                  ['p', rng.choice([0o600, 0o644, 0o660]), bytes([rng.randrange(65, 91)] * rng.choice([1, 5])).hex()]])
+                h.append(list(mv) if rng.random() < 0.85 else rng.choice([['P', 0o600, b'foreign-part'.hex()], ['Q']]))
+            if r >= 0.3 or not h:
+                k += 1
+                plan = []
+                if rng.random() < 0.3:
+                    plan = [[rng.randrange(0, 12), rng.choice([errno.ENOSPC, errno.EIO, errno.EPERM, 1001, 1002])]]
+                h.append(self.sv(k, who=rng.choice([0, 0, 0, 1, 'n']), raises=(1 if rng.random() < 0.2 else 0), plan=plan))
+        if h[-1][0] != 's':
+            h.append(self.sv(k + 1))
+        return h
 
     def cases(self, budget_s):
         full = self.thorough
@@ -579,6 +734,10 @@ class C05(Property):
                 c['buf'] = rng.choice([0, 1, 2, 5, 4096]) if c['txt'] else rng.choice([0, 2, 5, 4096])
             if rng.random() < 0.25:
                 c['reuse'] = 2 if (c['rm'] and c['part'] is None and rng.random() < 0.5) else 1
+            elif rng.random() < 0.3:
+                c['hist'] = self.random_history()
+                if rng.random() < 0.4:
+                    c['alt'] = {'perms': rng.choice([None, 0o600, 0o664]), 'ow': rng.randrange(2)}
             if rng.random() < 0.15:
                 c['cloexec'] = 1
             yield c
@@ -609,6 +768,8 @@ class C05(Property):
             obs = self.run_case(case)
         if len(cache) > 2000:
             cache.clear()
+        if case.get('hist') is not None:
+            return self.line_history(case, obs)
         # the transliteration on the same case (statistics only): queried in one batch at the next render()
         ops = ops_of(case)
         toks = [op[1:] if op[0] == 'w' else op.upper() for op in ops]
@@ -620,7 +781,33 @@ class C05(Property):
         return ' '.join(self._head(case) + [
             new_hex(case),
             str(int(o1['out'] == 'ok')), ','.join(o1.get('trace') or []) or '-',
-            str(int(o2['out'] == 'ok')), ','.join(o2.get('trace') or []) or '-'])
+            str(int(o2['out'] == 'ok')), ','.join(o2.get('trace') or []) or '-',
+            ','.join(o1.get('raw') or []) or '-', ','.join(o2.get('raw') or []) or '-'])
+
+    def line_history(self, case, obs):
+        """HIST <umask> <dest> <part> <step>... : every save of the history with ITS configuration and observed trace
+        (S/<flags>/<perms>/<raises>/<content>/<ok>/<trace>/<raw records>), the moves of the world in between (E/c<mode>, E/d,
+        E/p<mode>:<hex>, E/u<umask>); the driver judges each save by C05.Accept with the state that save starts from"""
+        def f(x):
+            return '-' if x is None else '%d:%s' % (x[0], x[1])
+
+        def sv(o, ops, raises):
+            cfg = o['cfg']
+            return '/'.join(['S', '%d%d%d%d' % (cfg['ow'], cfg['owp'], cfg['rm'], cfg['txt']),
+                             '-' if cfg['perms'] is None else str(cfg['perms']), str(1 if raises else 0),
+                             ''.join(op[1:] for op in ops if op[0] == 'w') or '-', str(int(o['out'] == 'ok')),
+                             ','.join(o.get('trace') or []) or '-', ','.join(o.get('raw') or []) or '-'])
+        words = ['HIST', str(case['umask']), f(case['dest']), f(case['part']), sv(obs['first'], ops_of(case), case['raises'])]
+        for st, so in zip(case['hist'], obs['steps']):
+            if st[0] == 's':
+                words.append(sv(so, list(st[1].get('ops') or []), st[1].get('raises', 0)))
+            elif st[0] in 'pP':
+                words.append('E/%s%d:%s' % (st[0], st[1], st[2]))
+            elif st[0] in 'dQ':
+                words.append('E/' + st[0])
+            else:
+                words.append('E/%s%d' % (st[0], st[1]))
+        return ' '.join(words)
 
     def flush_ref(self):
         pend = self.__dict__.get('_ref_pending')
@@ -674,20 +861,12 @@ class C05(Property):
                     if stat.S_IMODE(os.lstat(path).st_mode) != spec[0]:
                         obs['env'] = 'the scratch file system does not keep mode %o' % spec[0]
             os.umask(case['umask'])
-            # documented defaults are exercised by omitting the keyword
-            kw = {}
-            for name, val, default in (('overwrite', case['ow'], 1), ('overwrite_part', case['owp'], 0),
-                                       ('rm_part_on_exc', case['rm'], 1), ('text_mode', case['txt'], 0)):
-                if val != default:
-                    kw[name] = bool(val)
-            if case['perms'] is not None:
-                kw['file_perms'] = case['perms']
-            if case.get('pf'):
-                kw['part_file'] = case['pf']       # custom part file name (always in the destination's directory)
-            if case.get('buf') is not None:
-                kw['buffering'] = case['buf']
+            kw = self.kwargs_of(case, case)
             plan = {k: a for k, a in case['plan']}
             ops = ops_of(case)
+            if case.get('hist') is not None:
+                self.run_history(fu, d, dest, part, case, obs)
+                return obs
             holder = {} if case.get('reuse') else None
             if case.get('reuse') == 2 and case['rm'] and case['part'] is None and not d2:
                 # the instance has been used before: a save whose block raises at once (it must leave everything as it was)
@@ -703,6 +882,7 @@ class C05(Property):
             obs['retry'] = self.one_save(fu, d, dest, kw, ['w' + op[1:] for op in ops if op[0] == 'w'], 0, {}, case['txt'],
                                          holder=holder, cloexec=case.get('cloexec'))
         except CaseTimeout:
+            obs['timeout'] = True
             obs.setdefault('first', {'out': 'exc:CaseTimeout', 'calls': 0, 'dest': None, 'part': None, 'extra': [], 'log': []})
             obs.setdefault('retry', {'out': 'exc:CaseTimeout', 'calls': 0, 'dest': None, 'part': None, 'extra': [], 'log': []})
         finally:
@@ -717,6 +897,75 @@ class C05(Property):
             if d2:
                 rm_scratch(d2)
         return obs
+
+    @staticmethod
+    def kwargs_of(cfg, case):
+        """keyword arguments of atomic_save for the configuration `cfg`; documented defaults are exercised by omitting the keyword"""
+        kw = {}
+        for name, val, default in (('overwrite', cfg['ow'], 1), ('overwrite_part', cfg['owp'], 0),
+                                   ('rm_part_on_exc', cfg['rm'], 1), ('text_mode', cfg['txt'], 0)):
+            if val != default:
+                kw[name] = bool(val)
+        if cfg['perms'] is not None:
+            kw['file_perms'] = cfg['perms']
+        if case.get('pf'):
+            kw['part_file'] = case['pf']       # custom part file name (always in the destination's directory)
+        if case.get('buf') is not None:
+            kw['buffering'] = case['buf']
+        return kw
+
+    def run_history(self, fu, d, dest, part, case, obs):
+        """a history: the case's own save, then the steps of case['hist'] on the same directory - the world changes
+        (['c', mode] the destination is chmod-ed, ['d'] deleted, ['p', mode, hex] replaced by another writer's file,
+        ['u', umask] the process umask changes, ['P', mode, hex] a part file appears under the part name, ['Q'] it is removed)
+        and further saves (['s', {who, ops, raises, plan}]: `who` = 0 the SAME
+        long-lived AtomicSaver object as the first save, 1 = a second long-lived object (configuration overrides `alt`),
+        'n' = a fresh object).  The state each save starts from is measured (not predicted) just before it."""
+        holders = {0: {}, 1: {}}
+        um = case['umask']
+
+        def save(who, ops, raises, plan):
+            cfg = saver_cfg(case, who)
+            start = {'dest': look(dest), 'part': look(part), 'umask': um}
+            o = self.one_save(fu, d, dest, self.kwargs_of(cfg, case), ops, raises, {k: a for k, a in plan}, cfg['txt'],
+                              holder=holders.get(who), cloexec=case.get('cloexec'))
+            o['start'] = start
+            o['cfg'] = cfg
+            o['who'] = who
+            return o
+        obs['first'] = save(0, ops_of(case), case['raises'], case['plan'])
+        steps = obs['steps'] = []
+        for st in case['hist']:
+            kind = st[0]
+            if kind == 's':
+                sp = st[1]
+                steps.append(save(sp.get('who', 0), list(sp.get('ops') or []), sp.get('raises', 0), sp.get('plan') or []))
+                continue
+            if kind == 'c':
+                if os.path.lexists(dest):
+                    os.chmod(dest, st[1])
+            elif kind == 'd':
+                if os.path.lexists(dest):
+                    os.unlink(dest)
+            elif kind == 'p':
+                tmp = os.path.join(d, 'other-writer.tmp')
+                with open(tmp, 'wb') as f:
+                    f.write(b'' if st[2] == '-' else bytes.fromhex(st[2]))
+                os.chmod(tmp, st[1])
+                os.rename(tmp, dest)
+            elif kind == 'u':
+                um = st[1]
+                os.umask(um)
+            elif kind == 'P':
+                if os.path.lexists(part):
+                    os.unlink(part)
+                with open(part, 'wb') as f:
+                    f.write(b'' if st[2] == '-' else bytes.fromhex(st[2]))
+                os.chmod(part, st[1])
+            elif kind == 'Q':
+                if os.path.lexists(part):
+                    os.unlink(part)
+            steps.append({'env': kind, 'dest': look(dest), 'part': look(part)})
 
     def one_save(self, fu, d, dest, kw, ops, raises, plan, txt, rel=None, chdir_to=None, holder=None, cloexec=False):
         partname = kw.get('part_file') or PART
@@ -765,15 +1014,6 @@ class C05(Property):
             else:
                 out = 'exc:' + exc_name(e)      # a BaseException that is not the block's own
 
-        def look(p):
-            try:
-                st = os.lstat(p)
-            except OSError:
-                return None
-            if not stat.S_ISREG(st.st_mode):
-                return [stat.S_IMODE(st.st_mode), '?notreg']
-            with open(p, 'rb') as fh:
-                return [stat.S_IMODE(st.st_mode), hx(fh.read())]
         names = sorted(os.listdir(d))
         log = []
         pub = False
@@ -802,7 +1042,7 @@ class C05(Property):
         return {'out': out, 'calls': spy.n, 'dest': look(dest), 'part': look(os.path.join(d, partname)),
                 'extra': [n for n in names if n not in (DEST, partname)], 'log': log, 'pub': pub, 'pub_index': pub_index,
                 'created': created, 'unlink_faulted': unlink_faulted, 'faults': faults, 'appear_at': appear_at,
-                'fault_cls': fault_cls, 'closed_by_body': closed_by_body, 'trace': spy.observations()}
+                'fault_cls': fault_cls, 'closed_by_body': closed_by_body, 'trace': spy.observations(), 'raw': spy.raw_records()}
 
     def render(self, case, obs):
         """what an accepted, executable trace must give: the REAL destination and part file"""
@@ -812,10 +1052,13 @@ class C05(Property):
             return '-' if x is None else '%d:%s' % (x[0], x[1])
 
         def half(o):
-            s = 'acc=0 exec=ok nat=ok dest=%s part=%s' % (f(o['dest']), f(o['part']))
+            s = 'acc=0 exec=ok nat=ok cls=ok dest=%s part=%s' % (f(o['dest']), f(o['part']))
             if o['extra']:
                 s += ' extra=' + ','.join(o['extra'])      # the model knows two names only
             return s
+        if case.get('hist') is not None:
+            return ' | '.join([half(obs['first'])] + [
+                ('env dest=%s part=%s' % (f(so['dest']), f(so['part']))) if 'env' in so else half(so) for so in obs['steps']])
         return half(obs['first']) + ' | ' + half(obs['retry'])
 
     def render_ref(self, obs):
@@ -848,7 +1091,7 @@ class C05(Property):
         st['out:' + o['out'].split(':')[0]] = st.get('out:' + o['out'].split(':')[0], 0) + 1
         for _, name in o.get('faults', []):
             st['fault@' + name] = st.get('fault@' + name, 0) + 1
-        for k in ('ops', 'buf', 'reuse', 'cloexec'):
+        for k in ('ops', 'buf', 'reuse', 'cloexec', 'hist'):
             if case.get(k):
                 st['with:' + k] = st.get('with:' + k, 0) + 1
         if case['raises']:
@@ -857,14 +1100,8 @@ class C05(Property):
         if obs.get('env'):
             st['env-skipped'] = st.get('env-skipped', 0) + 1
             return None         # the scratch file system cannot represent the initial state (e.g. drops the sticky bit)
-        # which exception class reaches the caller is not constrained by the statement ("the caller receives an exception");
-        # what IS required is that a save with nothing in its way - no injected failure, the block neither raises nor closes
-        # the file itself, no refusal, no pre-existing part file, a configuration Python accepts - completes
-        if (o['out'] != 'ok' and not case['raises'] and not o.get('faults') and not o.get('appear_at')
-                and (case['ow'] or case['dest'] is None) and (case['part'] is None or case['owp'])
-                and not o.get('closed_by_body') and not (case['txt'] and case.get('buf') == 0) and not case.get('chdir')):
-            return Failure('unexpected-exception', 'a save with nothing in its way (no fault, no refusal, the block ended normally) '
-                           'raised %s' % o['out'])
+        if obs.get('timeout') or 'first' not in obs:
+            return Failure('unexpected-exception', 'the save did not terminate')
         w = obs.get('warm')
         if w is not None:
             # only generated with rm_part_on_exc on and no part file: the warm-up save (block raises) must change nothing
@@ -874,6 +1111,61 @@ class C05(Property):
                 return Failure('dest-changed', 'destination was %r, is %r after a save whose block raised' % (case['dest'], w['dest']))
             if w['part'] is not None:
                 return Failure('part-left', 'part file left behind after a save whose block raised (rm_part_on_exc on)')
+        f = self.judge_save(case, o)
+        self._nt = not o['pub']
+        if f is not None:
+            return f
+        if case.get('hist') is not None:
+            return self.judge_history(case, obs)
+        return self.judge_retry(case, obs)
+
+    def judge_history(self, case, obs):
+        """every save of a history is a save of its own: the property applies to it with the state it STARTS from
+        (measured just before it: destination, part file, umask) - whatever the same saver object did or saw before"""
+        k = 1
+        told = ['save #1']
+        for st, so in zip(case['hist'], obs['steps']):
+            if st[0] != 's':
+                told.append('destination deleted' if st[0] == 'd' else 'part file removed' if st[0] == 'Q' else
+                            ('chmod %o', 'destination replaced by another writer (mode %o)', 'umask %o',
+                             'a part file (mode %o) appears')['cpuP'.index(st[0])] % st[1])
+                if ((st[0] == 'd' and so['dest'] is not None) or (st[0] == 'p' and so['dest'] != [st[1], st[2]])
+                        or (st[0] == 'c' and so['dest'] is not None and so['dest'][0] != st[1])):
+                    self.stats['env-skipped'] = self.stats.get('env-skipped', 0) + 1
+                    return None       # the scratch file system did not do what the harness asked: no verdict
+                continue
+            k += 1
+            sp = st[1]
+            ops = list(sp.get('ops') or [])
+            sub = dict(so['cfg'], umask=so['start']['umask'], dest=so['start']['dest'], part=so['start']['part'],
+                       ops=ops, writes=[op[1:] for op in ops if op[0] == 'w'], raises=sp.get('raises', 0),
+                       plan=sp.get('plan') or [])
+            for kk in ('buf', 'pf'):
+                if case.get(kk) is not None:
+                    sub[kk] = case[kk]
+            who = so.get('who')
+            told.append('save #%d (%s)' % (k, {0: 'the same AtomicSaver object', 1: 'a second long-lived AtomicSaver object',
+                                                 'n': 'a fresh saver'}.get(who, who)))
+            f = self.judge_save(sub, so)
+            if not so['pub']:
+                self._nt = True
+            if f is not None:
+                return Failure(f.tag, 'history [%s]: %s (this save started with destination %r, umask %o, file_perms %s)' % (
+                    '; '.join(told), f.what, so['start']['dest'] and ['%o' % so['start']['dest'][0], so['start']['dest'][1]],
+                    so['start']['umask'], 'None' if sub['perms'] is None else '%o' % sub['perms']))
+        return None
+
+    def judge_save(self, case, o):
+        """C05 on ONE save: `case` gives its configuration, the state it starts from (dest, part, umask), its with-block
+        and plan; `o` what was observed"""
+        # which exception class reaches the caller is not constrained by the statement ("the caller receives an exception");
+        # what IS required is that a save with nothing in its way - no injected failure, the block neither raises nor closes
+        # the file itself, no refusal, no pre-existing part file, a configuration Python accepts - completes
+        if (o['out'] != 'ok' and not case['raises'] and not o.get('faults') and not o.get('appear_at')
+                and (case['ow'] or case['dest'] is None) and (case['part'] is None or case['owp'])
+                and not o.get('closed_by_body') and not (case['txt'] and case.get('buf') == 0) and not case.get('chdir')):
+            return Failure('unexpected-exception', 'a save with nothing in its way (no fault, no refusal, the block ended normally) '
+                           'raised %s' % o['out'])
         new = [None, new_hex(case)]
         completed = o['pub']
         pub_index = o['pub_index']
@@ -887,7 +1179,6 @@ class C05(Property):
         listed_fault = [(i, n) for i, n in o['faults'] if n in LISTED_STEPS and before(i)]
         refused = (not case['ow']) and (init_dest is not None or bool(appeared_before))
         trigger = bool(case['raises']) or bool(listed_fault) or refused
-        self._nt = (not completed)
         if trigger and completed:
             return Failure('completed-despite-failure', 'the save was published although %s' % (
                 'the block raised' if case['raises'] else 'call %r failed' % (listed_fault[:1],) if listed_fault else
@@ -916,6 +1207,12 @@ class C05(Property):
                 return Failure('part-left', 'part file left behind after a failed save (rm_part_on_exc on, no unlink failed)')
         if not o['created'] and case['part'] is not None and o['part'] is not None and o['part'] != case['part']:
             return Failure('part-reused', 'pre-existing part file modified by a save that never created one')
+        return None
+
+    def judge_retry(self, case, obs):
+        o = obs['first']
+        new = [None, new_hex(case)]
+        completed = o['pub']
         # retry: a second, fault-free save of the same data that starts in the state the first one left
         r = obs['retry']
         if r['out'] == 'exc:CaseTimeout':
@@ -979,7 +1276,16 @@ class C05(Property):
             yield dict(case, owp=0)
         if case['perms'] is not None:
             yield dict(case, perms=None)
-        for k in ('chdir', 'pf', 'buf', 'reuse', 'cloexec'):
+        if case.get('hist'):
+            h = case['hist']
+            for i in range(len(h)):
+                yield dict(case, hist=h[:i] + h[i + 1:])
+            for i, st in enumerate(h):
+                if st[0] == 's' and (st[1].get('plan') or st[1].get('raises') or st[1].get('who')):
+                    for k2, v in (('plan', []), ('raises', 0), ('who', 0)):
+                        if st[1].get(k2):
+                            yield dict(case, hist=h[:i] + [['s', dict(st[1], **{k2: v})]] + h[i + 1:])
+        for k in ('chdir', 'pf', 'buf', 'reuse', 'cloexec', 'alt'):
             if case.get(k) is not None:
                 yield {kk: v for kk, v in case.items() if kk != k}
 
